@@ -133,6 +133,10 @@ func genPatcherExit(w *World, res *CheckResult) {
 		func(st *State, pv *Term) {
 			e.AddVC(name+"/post[no-fail]", "post", fn.String(), st, True, "Exit must not fail on a well-formed binary node")
 		})
+	if e.oblIdx[name+"/post[no-fail]"] == nil {
+		// no failing path exists: keep the obligation (trivially discharged) so its name is stable
+		e.AddVC(name+"/post[no-fail]", "post", fn.String(), NewState(), False, "no path of Exit fails")
+	}
 	res.Obls = append(res.Obls, e.obls...)
 	res.Assumptions = append(res.Assumptions, e.Notes()...)
 	// the checker resolves on the types it just computed and records them on the nodes (syntactic)
